@@ -1261,6 +1261,10 @@ class Interp:
             self.ctx.assume(z3.Implies(fn("dict_has", V, V, Bool)(d.base, kt), fn("dict_len", V, Int)(d.base) >= 1))
             if self.decide(fn("dict_has", V, V, Bool)(d.base, kt)):
                 v = SymV(fn("dict_get", V, V, V)(d.base, kt))
+                if getattr(d, "value_kind", None) == "int":
+                    it = smt.unbox_int(v.t)
+                    self.ctx.assume(smt.box_int(it) == v.t)
+                    v = SymInt(it)
                 if d.inv is not None:
                     d.inv(self, key, v)
                 return True, v
